@@ -473,7 +473,7 @@ impl Space for RlimitSpace {
 // ---------------------------------------------------------------------------------------------
 // (e) unwritable / odd targets
 
-const SCENARIOS: [&str; 9] = ["control", "dir-readonly", "target-is-empty-directory", "target-is-nonempty-directory", "no-extension", "non-utf8-extension", "parent-missing", "temp-name-is-directory", "dir-readonly-temp-exists"];
+const SCENARIOS: [&str; 10] = ["control", "stale-longer-temp-exists", "dir-readonly", "target-is-empty-directory", "target-is-nonempty-directory", "no-extension", "non-utf8-extension", "parent-missing", "temp-name-is-directory", "dir-readonly-temp-exists"];
 struct TargetSpace {
     fx: Fx,
     drop_priv_ok: bool,
@@ -548,6 +548,8 @@ impl Space for TargetSpace {
             }
             "temp-name-is-directory" => std::fs::create_dir(&tmp).unwrap(),
             "dir-readonly-temp-exists" => std::fs::write(&tmp, b"stale temp file of somebody else").unwrap(),
+            // leftover of an earlier, killed save: longer than anything this save writes
+            "stale-longer-temp-exists" => std::fs::write(&tmp, vec![b'Z'; 600_000]).unwrap(),
             _ => {}
         }
         if readonly {
@@ -575,7 +577,7 @@ impl Space for TargetSpace {
         if must_fail && o == Res::Ok && dclass == "new" {
             fs.push(Finding { clause: "harness", symptom: "fault-did-not-bind".into(), detail: format!("scenario {} did not make the target unwritable", sc) });
         }
-        if sc == "control" && (o != Res::Ok || dclass != "new") && fs.is_empty() {
+        if (sc == "control" || sc == "stale-longer-temp-exists") && (o != Res::Ok || dclass != "new") && fs.is_empty() {
             fs.push(Finding { clause: "control", symptom: "fails-without-fault".into(), detail: format!("healthy target but {} / destination {}", o.text(), dclass) });
         }
         for mut f in fs {
@@ -658,7 +660,7 @@ fn run(ctx: &Ctx) -> i32 {
             spaces,
             cfg: PoolCfg { chunk: 8, case_timeout: Duration::from_secs(120), ..Default::default() },
             level: "fault_enumeration",
-            rule: "five injectors, each enumerated completely over its index: (sink) every write-call index 0..=N of a fault-free run (N measured per API and per accepted-bytes-per-call) x 4 failure modes; (rlimit) path save in a forked child under RLIMIT_FSIZE=L with SIGXFSZ ignored for every L in 0..=size (small workloads; big ones: see bounds) x destination absent/old; (targets) 9 target scenarios x 8 workloads x destination absent/old; (strace-err) errno injected at the k-th call of every openat(create)/write/pwrite64/rename/close/fsync/ftruncate of the save window of a traced child (window = between two marker openat calls, ordinals taken from a fault-free census run), plus pairs (write k fails AND every unlink fails); (strace-kill) SIGKILL on entry of every system call of the window and of the end marker. Oracle: Err, or Ok with destination == complete new file; a pre-existing destination is byte-identical old or complete new; no panic. distinct_nontrivial = distinct (workload, fault, outcome kind, destination class, directory listing with sizes) observations among the cases whose fault actually fired".into(),
+            rule: "five injectors, each enumerated completely over its index: (sink) every write-call index 0..=N of a fault-free run (N measured per API and per accepted-bytes-per-call) x 4 failure modes; (rlimit) path save in a forked child under RLIMIT_FSIZE=L with SIGXFSZ ignored for every L in 0..=size (small workloads; big ones: see bounds) x destination absent/old; (targets) 10 target scenarios x 8 workloads x destination absent/old; (strace-err) errno injected at the k-th call of every openat(create)/write/pwrite64/rename/close/fsync/ftruncate of the save window of a traced child (window = between two marker openat calls, ordinals taken from a fault-free census run), plus pairs (write k fails AND every unlink fails); (strace-kill) SIGKILL on entry of every system call of the window and of the end marker. Oracle: Err, or Ok with destination == complete new file; a pre-existing destination is byte-identical old or complete new; no panic. distinct_nontrivial = distinct (workload, fault, outcome kind, destination class, directory listing with sizes) observations among the cases whose fault actually fired".into(),
             alphabets: json!({"workloads": WLS.iter().map(|w| w.name()).collect::<Vec<_>>(), "destination_before": ["absent", "old"], "sink_apis": SINK_APIS, "sink_modes": MODES.iter().map(|m| m.name()).collect::<Vec<_>>(), "sink_accepts_per_call": SINK_CHUNKS, "target_scenarios": SCENARIOS, "strace_errors": st::error_menu_json(), "fault_free_sizes": p.size, "sink_write_calls": p.sink_calls, "save_window_syscalls": windows}),
             bounds: json!({"rlimit": if thorough {format!("every L in 0..=size for xlsx-write, xlsx-write-light, xlsx-write-64k, csv-small, csv; every {}th L + boundaries for the three encrypted workloads", THOROUGH_CFB_STEP)} else {"every L in 0..=size for xlsx-write, xlsx-write-light, csv-small; boundary L (0,1,2,511..513,n*4096-1..+1,size-8192-1..+1,size-2..size+1) for xlsx-write-64k, csv and the three encrypted workloads".to_string()}, "strace": st::bounds_json(ctx.tier)}),
             exhaustive: caps.is_empty(),
